@@ -181,6 +181,10 @@ def build():
         "forwarded: Value::new(..)? then insert then pass the response through")
     one(r"if\s+let\s+Some\(response\)\s*=\s*opt_response\s*\{\s*return\s+response\s*;\s*\}", gi, "served: whatever get_response produced (incl. an error) is returned")
     defs.append(("lookup_error_fails_request", "bool", "true"))
+    # which error a parse failure becomes: From<ParseError> for Error
+    rq = strip_comments(read("src/net/client/request.rs"))
+    m = one(r"impl\s+From<ParseError>\s+for\s+Error\s*\{\s*fn\s+from\(\s*_\s*:\s*ParseError\s*\)\s*->\s*Self\s*\{\s*Self::(\w+)\s*\}", rq, "From<ParseError> for Error")
+    defs.append(("parse_error_is_message_parse_error", "bool", "true" if m.group(1) == "MessageParseError" else "false"))
     ttlsrc = strip_comments(read("src/base/record.rs"))
     sb = fn_body(ttlsrc, "sub", after="impl core::ops::Sub for Ttl")
     one(r"self\.checked_sub\(\s*rhs\s*\)\s*\.expect\(", sb, "Ttl - Ttl panics on underflow")
@@ -208,4 +212,4 @@ def build():
 
 
 if __name__ == "__main__":
-    main("C20", "/repo/src/net/client/cache.rs, utils/config.rs, base/iana/rtype.rs, base/record.rs", build)
+    main("C20", "/repo/src/net/client/cache.rs, net/client/request.rs, utils/config.rs, base/iana/rtype.rs, base/record.rs", build)
